@@ -913,6 +913,30 @@ def edges(rng, case, idx):
                 a_, ea = attempt(lambda: r.get_substance_used(dye, 'all', 'nmol', destinations=[p1, p2, waste]))
                 if ef is None and es is None and ea is None and abs(f_ + s_ - a_) > 1.0:
                     viol(['C09'], 'C09:stages_do_not_add_up_to_the_whole_recipe', {'fill': f_, 'stamp': s_, 'all': a_})
+            M.bucket(case['prop'] + '/edge/E29_a_loss_after_stamps_back_and_forth')
+            lig = S.solid('ligand', 500.0)
+            st = C('stock', '1 L', [(water, '100 mL'), (lig, '1 nmol')])        # 10 nM
+            p_, q_ = pp.Plate('p', '200 uL'), pp.Plate('q', '200 uL')
+            st, p_ = pp.Plate.transfer(st, p_, '60 uL')
+            waste = C('waste', '1 L')
+            r = pp.Recipe().uses(st, p_, q_, waste)
+            r.start_stage('mix')
+            for k_ in range(3):
+                r.transfer(p_, q_, '20 uL')
+                r.transfer(q_, p_, '15 uL')
+            r.transfer(p_['A:1'], waste, rng.choice(['5 uL', '6 uL', '4 uL']))      # 0.05 pmol of ligand: 500 stored digits (umol storage)
+            r.end_stage('mix')
+            r.start_stage('top_up')
+            r.transfer(st, p_['A:1'], '100 uL')
+            r.end_stage('top_up')
+            _, exc = attempt(lambda: r.bake())
+            if exc is None and cf.q * cf.mol_prefix <= 1e-15:
+                res, exc = attempt(lambda: r.get_substance_used(lig, 'mix', 'pmol'))
+                if exc is None or not isinstance(exc, ValueError):
+                    viol(['C09'], 'C09:net_decrease_not_refused_with_ValueError:after_stamps_back_and_forth', {'answer': res, 'exc': repr(exc)[:100]})
+                res, exc = attempt(lambda: r.get_substance_used(lig, 'mix', 'pmol', destinations=[p_, q_, waste]))
+                if exc is not None or abs(res) > 1e-3:
+                    viol(['C09'], 'C09:closed_system_not_zero:after_stamps_back_and_forth', {'answer': res, 'exc': repr(exc)[:100]})
             M.note_nontrivial(case['prop'], ('E29', idx))
         elif fam == 29:
             # ---- E30
@@ -994,6 +1018,39 @@ def edges(rng, case, idx):
                 if exc is not None:
                     viol(['C12', 'C03'], f'C12:diluent_container_already_at_the_target_refused:{type(exc).__name__}', {'total': tot, 'exc': repr(exc)[:100]})
                     break
+            M.bucket(case['prop'] + '/edge/E30_a_neat_stock_and_its_own_concentration')
+            gly = S.liquid('glycerol', 92.09, 1.261)
+            for sub, targets in ((dmso, ['100 %v/v', '100 %w/w', '1 mol/mol', '1.1004 g/mL']), (gly, ['OWN M', 'OWN g/L', '100 %v/v']), (eth, ['OWN M', '100 %v/v'])):
+                neat = C('neat', '10 mL', [(sub, '1 mL')])
+                for t_ in targets:
+                    if t_.startswith('OWN'):
+                        t_ = f"{neat.get_concentration(sub, t_[4:])} {t_[4:]}"
+                    res, exc = attempt(lambda: neat.dilute(sub, t_, water))
+                    if exc is not None or res.contents != neat.contents:
+                        viol(['C11', 'C03'], 'C11:own_concentration_of_a_neat_stock_refused' if exc is not None else 'C11:own_concentration_of_a_neat_stock_changes_it', {'substance': sub.name, 'target': t_, 'exc': repr(exc)[:100]})
+                        break
+                r = pp.Recipe().uses(neat)
+                _, exc = attempt(lambda: (r.dilute(neat, sub, '100 %v/v', water), r.bake()))
+                if exc is not None:
+                    viol(['C11', 'C03', 'C08'], 'C08:bake_and_eager_disagree:own_concentration_of_a_neat_stock', {'substance': sub.name, 'exc': repr(exc)[:100]})
+                res, exc = attempt(lambda: neat.dilute(sub, '50 %v/v', water))
+                if exc is None:
+                    got = R.concentration(res.contents, sub, 'L', 'L')
+                    if abs(got - 0.5) > 1e-6:
+                        viol(['C11'], 'C11:dilute_of_a_neat_stock_misses_the_target', {'substance': sub.name, 'got_v_v': got})
+            M.bucket(case['prop'] + '/edge/E30_a_source_of_enzymes_only_per_mole')
+            amy = S.enzyme('amylase', '10 U/mg')
+            vial2 = C('vial', initial_contents=[(amy, '500 U')])
+            for target, tot in (('5 U/mmol', '10 mL'), ('20 U/mmol', '5 mL'), ('2 U/mol', '3 mL')):
+                res, exc = attempt(lambda: C.create_solution_from(vial2, amy, target, water, tot))
+                if exc is not None:
+                    viol(['C12', 'C03'], f'C12:feasible_request_refused:enzyme_only_source_per_mole:{type(exc).__name__}', {'target': target, 'total': tot, 'exc': repr(exc)[:100]})
+                    continue
+                mol_ = R.measure(res[1].contents, 'mol')
+                got = res[1].contents.get(amy, 0.0) / mol_ if mol_ > 0 else float('inf')
+                want = R.parse_concentration(target)[0]
+                if not (abs(got - want) <= 1e-4 * want):
+                    viol(['C12', 'C03'], 'C12:concentration_not_met:enzyme_only_source_per_mole', {'target': target, 'total': tot, 'got_U_per_mol': got, 'want': want})
             M.note_nontrivial(case['prop'], ('E30', idx))
         elif fam == 30:
             # ---- E31
@@ -1043,6 +1100,33 @@ def edges(rng, case, idx):
                 stored_res = cf.q / sa / max(R.measure(res.contents, den), 1e-300) if num == 'g' else 0.0
                 if abs(got - v) > 1e-3 * v + 2 * stored_res:
                     viol(['C05', 'C03'], 'C05:stated_concentration_not_met:trace_enzyme_by_mass', {'concentration': conc, 'total': tot, 'got': got, 'want': v, 'unit': f'{num}/{den}'})
+            M.bucket(case['prop'] + '/edge/E31_solutes_stated_per_one_another')
+            lipa, amyl = S.enzyme('lipase', '15 U/mg'), S.enzyme('amylase', '5000 U/mg')
+            for tot in ('100 kg', '1 kg'):
+                shares = []
+                for order in ((lipa, amyl), (amyl, lipa)):
+                    concs = ['0.3 U/U', '0.1 pg/kg'] if order[0] is lipa else ['0.1 pg/kg', '0.3 U/U']
+                    res, exc = attempt(lambda: C.create_solution(list(order), water, concentration=concs, total_quantity=tot))
+                    if exc is None:
+                        tot_u = sum(a_ for s_, a_ in res.contents.items() if s_.is_enzyme())
+                        if min(res.contents.get(lipa, 0.0), res.contents.get(amyl, 0.0)) > 1e4 * cf.q:
+                            shares.append(res.contents.get(lipa, 0.0) / tot_u)
+                if any(abs(sh - 0.3) > 1e-3 for sh in shares):
+                    viol(['C05', 'C03'], 'C05:stated_concentration_not_met:solute_stated_per_a_trace_solute', {'total': tot, 'stated': '0.3 U/U', 'lipase_share_of_activity_by_list_order': shares})
+            res, exc = attempt(lambda: C.create_solution([lipa, amyl], water, concentration=['0.3 U/U', '1 mg/kg'], total_quantity='1000 kg'))
+            if exc is not None:
+                viol(['C05', 'C03'], f'C05:feasible_request_refused:solute_stated_per_a_trace_solute:{type(exc).__name__}', {'exc': repr(exc)[:100]})
+            M.bucket(case['prop'] + '/edge/E31_per_unit_of_activity_with_an_enzyme_in_the_solvent_container')
+            stock = C('lipase stock', initial_contents=[(water, '1 L'), (lipa, '2000 U')])
+            res, exc = attempt(lambda: C.create_solution([amyl, salt], stock, concentration=['0.5 U/mL', '1 mmol/U'], total_quantity='10 mL'))
+            if exc is None:
+                new = res[1]
+                tot_u = sum(a_ for s_, a_ in new.contents.items() if s_.is_enzyme())
+                got = R.canon(salt, new.contents.get(salt, 0.0)) / tot_u if tot_u else float('inf')
+                if abs(got - 1e-3) > 1e-6:
+                    viol(['C05', 'C03'], 'C05:stated_value_not_met:per_unit_of_activity_with_an_enzyme_in_the_solvent_container', {'stated_mol_per_U': 1e-3, 'got': got})
+            elif not isinstance(exc, ValueError):
+                viol(['C05', 'C03'], f'C05:refusal_not_ValueError:per_U_with_enzyme_solvent:{type(exc).__name__}', {'exc': repr(exc)[:100]})
             M.note_nontrivial(case['prop'], ('E31', idx))
         elif fam == 31:
             # ---- E32
@@ -1096,4 +1180,26 @@ def edges(rng, case, idx):
                 res, exc = attempt(fn)
                 if exc is None and float(_np.sum(res)) > 0:
                     viol(['C10', 'C06'], f'C10:answered_in_another_dimension:{label}', {'answer': _np.asarray(res).tolist()[0]})
+            M.bucket(case['prop'] + '/edge/E32_a_rectangular_selection_of_no_wells')
+            plate2 = pp.Plate('plate', '100 uL', rows=2, columns=3)
+            for label, fn in (('transfer_into', lambda: pp.Plate.transfer(stock, plate2[:][0:0], '1 uL')), ('transfer_out_of', lambda: C.transfer(plate2[:][0:0], stock, '1 uL')),
+                              ('fill_to', lambda: plate2[:][0:0].fill_to(water, '60 uL')), ('remove', lambda: plate2[:][0:0].remove())):
+                _, exc_r = attempt(fn)
+                if exc_r is not None:
+                    viol(['C03', 'C07', 'C08'], f'C03:request_on_no_wells_refused:{label}:{type(exc_r).__name__}', {'exc': repr(exc_r)[:100], 'note': 'the same request on plate[[]] is carried out'})
+            M.bucket(case['prop'] + '/edge/E32_micro_spelt_either_way')
+            _, pl3 = pp.Plate.transfer(brine, pp.Plate('p', '100 uL', rows=1, columns=2), '10.26 uL')
+            for label, fa, fb in (('get_volumes', lambda: pl3.get_volumes(unit='uL'), lambda: pl3.get_volumes(unit='\u00b5L')), ('get_volume', lambda: pl3.get_volume('uL'), lambda: pl3.get_volume('\u00b5L')),
+                                  ('get_moles', lambda: pl3.get_moles(salt, 'umol'), lambda: pl3.get_moles(salt, '\u00b5mol'))):
+                a_, ea = attempt(fa)
+                b_, eb = attempt(fb)
+                if ea is None and eb is None and not _np.allclose(a_, b_, rtol=0, atol=0):
+                    viol(['C10', 'C14'], f'C10:answer_depends_on_how_micro_is_spelt:{label}', {'u': _np.asarray(a_).tolist(), 'micro_sign': _np.asarray(b_).tolist()})
+            M.bucket(case['prop'] + '/edge/E32_concentration_per_nothing')
+            enz_only = C('e', initial_contents=[(S.enzyme('amylase', '10 U/mg'), '5 U')])
+            for label, fn in (('enzyme_only_per_mole', lambda: enz_only.get_concentration(list(enz_only.contents)[0], 'U/mol')), ('no_enzyme_per_U', lambda: brine.get_concentration(salt, 'mol/U')),
+                              ('dry_solid_per_litre', lambda: C('d', initial_contents=[(salt, '1 g')]).get_concentration(salt, 'M'))):
+                _, exc_c = attempt(fn)
+                if exc_c is not None and not isinstance(exc_c, ValueError):
+                    viol(['C10', 'C03'], f'C10:get_concentration_raised:{type(exc_c).__name__}:{label}', {'exc': repr(exc_c)[:100]})
             M.note_nontrivial(case['prop'], ('E32', idx))
